@@ -427,14 +427,8 @@ class CSSPageRule(cssrule.CSSRuleRules):
             return
 
         # check hierarchy
-        if (
-            isinstance(rule, cssutils.css.CSSCharsetRule)
-            or isinstance(rule, cssutils.css.CSSFontFaceRule)
-            or isinstance(rule, cssutils.css.CSSImportRule)
-            or isinstance(rule, cssutils.css.CSSNamespaceRule)
-            or isinstance(rule, CSSPageRule)
-            or isinstance(rule, cssutils.css.CSSMediaRule)
-        ):
+        # only margin rules are allowed in @page
+        if not isinstance(rule, MarginRule):
             self._log.error(
                 '%s: This type of rule is not allowed here: %s'
                 % (self.__class__.__name__, rule.cssText),
